@@ -62,6 +62,15 @@ Ev(e, X) ==      \* X: dual of the argument (for the pytree argument: [a |-> dua
     [] k = "matmul" -> LET a == Ev(e[2], X) b == Ev(e[3], X) IN [p |-> VMatMul(a.p, b.p), t |-> VAdd(VMatMul(a.t, b.p), VMatMul(a.p, b.t))]
     [] k \in {"where", "cond"} -> LET c == Ev(e[2], X) IN IF RLess(e[3], c.p.d) THEN Ev(e[4], X) ELSE Ev(e[5], X)
     [] k = "intfloor" -> LET a == Ev(e[2], X) IN [p |-> S(Trunc(a.p.d)), t |-> S(R(0))]
+    (* primitives whose differentiable operand is followed by integer operands (computed index, index array, integer bounds) *)
+    [] k = "dynidx" -> LET a == Ev(e[2], X)
+                           i == CHOOSE j \in DOMAIN a.p.d : (\A m \in DOMAIN a.p.d : ~RLess(a.p.d[j], a.p.d[m])) /\ (\A m \in 1..(j - 1) : RLess(a.p.d[m], a.p.d[j]))
+                       IN [p |-> S(a.p.d[i]), t |-> S(a.t.d[i])]                                      \* x[argmax(x)]
+    [] k = "take21" -> LET a == Ev(e[2], X) IN [p |-> Vec(<<a.p.d[2], a.p.d[1]>>), t |-> Vec(<<a.t.d[2], a.t.d[1]>>)]   \* take(x, [1, 0])
+    [] k = "clip11" -> LET a == Ev(e[2], X)                                                            \* clip(x, -1, 1), integer bounds
+                           inside(q) == RLess(R(0 - 1), q) /\ RLess(q, R(1))
+                           cl(q) == IF RLess(q, R(0 - 1)) THEN R(0 - 1) ELSE IF RLess(R(1), q) THEN R(1) ELSE q
+                       IN [p |-> Map1(cl, a.p), t |-> Map2(LAMBDA pp, tt : IF inside(pp) THEN tt ELSE R(0), a.p, a.t)]
 
 Xs == <<"x">>
 C(n, d) == <<"c", Q(n, d)>>
@@ -73,6 +82,10 @@ Corpus == <<
   [n |-> "s_where",  ty |-> "s", e |-> <<"where", Xs, Q(1, 2), <<"sq", Xs>>, <<"mul", C(2, 1), Xs>>>>],
   [n |-> "s_cond",   ty |-> "s", e |-> <<"cond", Xs, Q(0, 1), <<"mul", Xs, Xs>>, <<"neg", Xs>>>>],
   [n |-> "s_int",    ty |-> "s", e |-> <<"mul", Xs, <<"intfloor", <<"add", Xs, C(2, 1)>>>>>>],
+  [n |-> "s_clip",   ty |-> "s", e |-> <<"mul", <<"clip11", <<"mul", Xs, C(3, 4)>>>>, Xs>>],
+  [n |-> "v_dynidx", ty |-> "v", e |-> <<"mul", <<"dynidx", Xs>>, <<"idx", Xs, 2>>>>],
+  [n |-> "v_take",   ty |-> "v", e |-> <<"dot", <<"take21", Xs>>, <<"add", Xs, C(1, 1)>>>>],
+  [n |-> "v_clip",   ty |-> "v", e |-> <<"sum", <<"mul", <<"clip11", <<"mul", Xs, C(3, 4)>>>>, Xs>>>>],
   [n |-> "v_sumsq",  ty |-> "v", e |-> <<"sum", <<"mul", Xs, Xs>>>>],
   [n |-> "v_idx",    ty |-> "v", e |-> <<"mul", <<"idx", Xs, 2>>, <<"idx", Xs, 1>>>>],
   [n |-> "v_dot",    ty |-> "v", e |-> <<"dot", Xs, <<"add", Xs, C(1, 1)>>>>],
